@@ -283,6 +283,7 @@ def run(repo: Repo, ctx) -> None:
     # ---- R6 -------------------------------------------------------------------
     _sdl_order(repo, ctx)
     _r7(repo, ctx)
+    _r8(repo, ctx)
 
 
 TEXT_OK = {
@@ -405,6 +406,102 @@ def _r7(repo: Repo, ctx) -> None:
                f'is not printed, and on replay the object inherits a '
                f'different value from its parent', af.loc,
                sample='fop.old_value != new_value')
+
+
+def _r8(repo: Repo, ctx) -> None:
+    """C03.R8 what DESCRIBE prints can be replayed in the printed order and
+    in any session.
+
+    (a) delta_schemas hands the *whole* object delta to linearize_delta and
+        only afterwards leaves the union types out: a union type is the only
+        node that ties `link l -> A | B` to A and B, so dropping its command
+        before the sort loses that ordering edge.
+    (b) every TypeName built by typeref_to_ast / shell_to_ast carries the
+        element name it was asked to carry (`name=_name`): an element of a
+        named tuple printed without its name makes the tuple unparsable or a
+        different (unnamed) type.
+    (c) only a command nested in its referrer prints its name without a
+        module; no other _deparse_name override blanks the module, because
+        an unqualified name is resolved against the replaying session's
+        current module."""
+    ctx.floor('C03.R8', 6)
+    ds = repo.func('edb.schema.ddl.delta_schemas')
+    ctx.saw(ds)
+    g = CFG(ds.node)
+    lin = [n.id for n in g.nodes if n.kind == 'stmt' and n.ast is not None
+           and any(isinstance(c, ast.Call) and norm(c.func).endswith(
+               'linearize_delta') for c in ast.walk(n.ast))]
+    flt = [n.id for n in g.nodes if n.ast is not None and n.kind in (
+        'stmt', 'test') and 'is_union_type' in norm(
+        n.ast.test if n.kind == 'test' and hasattr(n.ast, 'test') else n.ast)
+        and n.kind == 'test']
+    if not lin or not flt:
+        raise AnalysisError('C03.R8: linearize_delta call / union-type '
+                            'filter of delta_schemas not found')
+    after = g.reachable(flt)
+    ctx.ob('C03.R8', 'delta_schemas:union-types-dropped-after-sorting',
+           not (set(lin) & after),
+           'delta_schemas removes the commands of union types before '
+           'linearize_delta runs: the only dependency path from a link with '
+           'a union target to the component types goes through the union '
+           'type, so the emitted DDL can create the link before a component '
+           'type exists and replay fails', ds.loc,
+           sample='linearize_delta(objects) precedes the is_union_type test')
+    # (b)
+    n = 0
+    for fq in ('edb.schema.utils.typeref_to_ast',
+               'edb.schema.utils.shell_to_ast'):
+        f = repo.func(fq)
+        ctx.saw(f)
+        if '_name' not in f.params():
+            raise AnalysisError(f'C03.R8: {fq} has no _name parameter')
+        tops = [a.value for a in ast.walk(f.node) if isinstance(
+            a, (ast.Assign, ast.Return)) and a.value is not None]
+        for c in tops:
+            # (the type expression handed back, not the pieces nested in it)
+            if isinstance(c, ast.Call) and norm(c.func) == 'qlast.TypeName':
+                n += 1
+                v = kwarg(c, 'name')
+                ctx.ob('C03.R8', f'{f.name}:TypeName@'
+                       f'{norm(kwarg(c, "maintype") or c)[:40]}:carries-name',
+                       v is not None and norm(v) == '_name',
+                       f'{f.name} builds a TypeName without `name=_name`: '
+                       f'when this type is an element of a named tuple the '
+                       f'element name is lost (`tuple<array<str>, rev: '
+                       f'int64>` mixes named and unnamed elements and is '
+                       f'rejected; a one-element named tuple silently '
+                       f'becomes unnamed)', f'{f.module.rel()}:{c.lineno}',
+                       sample='name=_name')
+    if n < 8:
+        raise AnalysisError('C03.R8: TypeName constructions not found')
+    # (c)
+    ALLOWED = {
+        'edb.schema.delta.ObjectCommand._deparse_name':
+            'base: non-qualified names have no module',
+        'edb.schema.referencing.NamedReferencedInheritingObjectCommand'
+        '._deparse_name':
+            'nested in its referrer: the name is local to the parent',
+    }
+    k = 0
+    for qn, f in repo.functions.items():
+        if f.name != '_deparse_name' or not f.module.name.startswith(
+                'edb.schema'):
+            continue
+        k += 1
+        ctx.saw(f)
+        blanks = [norm(a) for a in ast.walk(f.node) if isinstance(
+            a, ast.Assign) and any(isinstance(t, ast.Attribute) and
+                                   t.attr == 'module' for t in a.targets)]
+        ok = not blanks or qn.split('@')[0] in ALLOWED
+        ctx.ob('C03.R8', f'{qn.split("edb.schema.")[-1]}:keeps-module',
+               ok,
+               f'{qn} rewrites the module of a deparsed name ({blanks}): '
+               f'the printed name is then resolved against the current '
+               f'module of whoever replays the text, and binds to a '
+               f'same-named user object when there is one', f.loc,
+               sample='module untouched')
+    if k < 3:
+        raise AnalysisError('C03.R8: _deparse_name overrides not found')
 
 
 def _parent_of(root: ast.AST, node: ast.AST):
